@@ -611,7 +611,10 @@ def run(ctx):
         try:
             w = sched_history(ctx, case, True,  res)
             n = sched_history(ctx, case, False, res)
-        except (RuntimeError, TimeoutError) as e:
+        except TimeoutError as e:
+            res.inconc('scheduler history: %r' % e)
+            continue
+        except RuntimeError as e:
             res.violation('history-stuck', repr(e), {'case': case})
             continue
         judge_sched(case, res, w, n)
